@@ -32,7 +32,8 @@ COQ_MODULE = 'Desper.Math.C18Model'
 CASE_TYPE = 'C18_case'
 VERDICT = 'C18_verdict'
 PROPS_FILE = 'theories/Props/C18.v'
-THEOREM = 'C18_* (56 statements in Props/C18.v about the definitions generated from math.py)'
+THEOREM = ('C18_* (the theorems of Props/C18.v: the definitions generated from math.py equal '
+           'the textbook definitions of Math/Spec.v, for all reals)')
 CASE_TIMEOUT = 10
 RULE = ('case = (method, exact rational entries of the arguments); 82 translated methods '
         '(all but the four that need cos/sin/atan2) drawn uniformly with extra weight on '
@@ -58,7 +59,13 @@ TRUSTED = [
     '__getattr__, compared exhaustively with the classes on every run)',
     'CPython tuple/slice/zip/sum/max/min semantics as implemented by the translator',
     'hypothesis of C18_rotate only (a theorem parameter, not an axiom): atan2 y x is a polar '
-    'angle of (x, y)',
+    'angle of (x, y); C18_polar_satisfiable shows it holds for the usual atan2',
+    'axioms of the Coq standard library printed by Print Assumptions (none declared here): '
+    'ClassicalDedekindReals.sig_forall_dec, ClassicalDedekindReals.sig_not_dec, '
+    'FunctionalExtensionality.functional_extensionality_dep for every theorem over R; '
+    'additionally Classical_Prop.classic for C18_polar_satisfiable only (stdlib atan)',
+    'Spec.spec_table (the boolean reading of the textbook definitions that holds_b evaluates '
+    'over Q; sqrt-free formulations such as r >= 0 /\\ r*r = v.v for r = |v|)',
 ]
 ASSUMPTIONS = [
     'exact real arithmetic (binary64 rounding not modelled): PARTIAL with respect to floats',
@@ -95,6 +102,7 @@ def gen(rng, tier):
         order.append(rng.choice(keys))
     for key in order[:max(n, 2 * len(mo.EXACT_KEYS))]:
         xs = _gen_inputs(mo, key, rng)
+        assert mo.in_domain(key, xs), (key, xs)
         cases.append({'m': key, 'args': [[x.numerator, x.denominator] for x in xs]})
     return cases
 
@@ -153,25 +161,33 @@ def stats(cases, traces):
                 limit_cases=lim, raised=exc, per_method=per)
 
 
+def _in_domain(case):
+    return _oracle().in_domain(case['m'], [Fraction(a, d) for a, d in case['args']])
+
+
 def shrink(case):
+    """simpler entries, staying inside the domain on which the real code
+    computes exactly (otherwise rounding, not the code, would be reported)"""
     args = case['args']
     for i, (n, d) in enumerate(args):
-        for cand in ([0, 1], [1, 1], [n // d if d else 0, 1]):
+        for cand in ([0, 1], [1, 1], [-1, 1], [n // d if d else 0, 1], [n, 1]):
             if cand != [n, d]:
                 c = dict(case)
                 c['args'] = args[:i] + [cand] + args[i + 1:]
-                yield c
+                if _in_domain(c):
+                    yield c
 
 
 def mutate(case, rng):
     args = case['args']
-    for _ in range(60):
-        i = rng.randrange(len(args)) if args else 0
-        if not args:
-            return
+    if not args:
+        return
+    for _ in range(200):
+        i = rng.randrange(len(args))
         c = dict(case)
         c['args'] = args[:i] + [[rng.randint(-9, 9), rng.choice((1, 2, 4))]] + args[i + 1:]
-        yield c
+        if _in_domain(c):
+            yield c
 
 
 # --------------------------------------------------------------- the build
@@ -357,8 +373,19 @@ def on_proof_failure(log, rng, tier, seed):
 
 
 def replay_obligation(data):
+    """`./check replay` of a file that names a failed obligation: run the
+    recorded input (if one was found) on the current tree against the
+    Python oracle"""
     print('failing obligation: %s' % data.get('failing'))
-    return 1
+    case = data.get('case')
+    if not case:
+        return 1
+    res = _run_oracle(['replay', json.dumps(case)], 120)
+    print(json.dumps(res)[:2000])
+    if not res['ok']:
+        print('VIOLATION property=%s replay=(this file): the result is not the textbook one' % ID)
+        return 1
+    return 0
 
 
 # ------------------------------------------------------------ extra checks
